@@ -100,7 +100,7 @@ pub fn place_on_matrix(
         datamasking::mask(&mut copy, mask);
         let copy_transpose = default::transpose(&copy);
         let matrix_score = score::score(&copy, &copy_transpose);
-        #[cfg(fast_qr_verif)]
+        #[cfg(all(fast_qr_verif, not(fast_qr_verif_wasm_only)))]
         crate::verif::record_candidate(mask, matrix_score, &copy);
         if matrix_score < best_score {
             best_score = matrix_score;
